@@ -147,7 +147,9 @@ struct IQ
 
 struct GetEventFromTracked
 {
-	static int getEvent(const Tracked & t) { return t.value & (kKeys - 1); }
+	// a policy that derives the key from the argument must be handed the argument as the caller supplied it: a moved-from
+	// payload (its content already forwarded into the queue) yields a key nobody listens to
+	static int getEvent(const Tracked & t) { return t.isMoved() ? kKeys + 1 : (t.value & (kKeys - 1)); }
 };
 
 struct CmpDesc { template <typename T> bool operator() (const T & a, const T & b) const { return a.event > b.event; } };
